@@ -115,11 +115,7 @@ func genC07Op(sc *Scenario, r *engine.PRNG, cfg world.InstCfg, types []string, f
 			// another caller's record arrives damaged (torn or one byte rotten): the
 			// call must still behave as it does alone, and must not disturb the others
 			raw, _ := hex.DecodeString(d)
-			if r.Intn(2) == 0 {
-				raw = raw[:1+r.Intn(len(raw)-1)]
-			} else {
-				raw[r.Intn(len(raw))] ^= byte(1 << uint(r.Intn(8)))
-			}
+			raw, _ = DamageRecord(raw, r.Intn)
 			op.Data = hex.EncodeToString(raw)
 			op.Pat = "damaged"
 		}
@@ -300,11 +296,7 @@ func c07SteadyJobs(seed uint64, quick bool) []SweepJob {
 						continue
 					}
 					raw, _ := hex.DecodeString(op.Data)
-					if r.Intn(3) == 0 {
-						raw = raw[:1+r.Intn(len(raw)-1)]
-					} else {
-						raw[r.Intn(len(raw))] ^= byte(1 << uint(r.Intn(8)))
-					}
+					raw, _ = DamageRecord(raw, r.Intn)
 					op.Data, op.Pat = hex.EncodeToString(raw), "damaged"
 					pre = append(pre, op)
 				}
